@@ -1,6 +1,7 @@
 import CCVerif.Lemmas.EvalGround
 import CCVerif.Lemmas.EvalExamples
 import CCVerif.Lemmas.EvalExamples6
+import CCVerif.Lemmas.EvalExamples7
 /-!
 # C02 — type soundness of checker + evaluator
 
@@ -522,5 +523,50 @@ theorem imperative_ground_value_fixed :
 /-- **int_overflow_fixed** (DESIGN finding 21): `2147483647+1` is the documented error `typedOverflow` -/
 theorem int_overflow_fixed :
     (evaluate 20 {} (bin .PLUS (lit 2147483647) (lit 1))).1 = .err EID.typedOverflow 0 := by decide
+
+/-! ## stage 7: calls of term functions / predicates (the evaluator runs on the tree with every call inlined)
+
+`Typed7 env e τ`: `e` β-reduces (`Beta`, `Lemmas/EvalCalls.lean`: every call replaced by the body of the definition,
+arguments for parameters, bound variables renamed) to a call-free `es` of stage 6 of type `τ`, whose normal form is what
+the normaliser returns for `e` (a closed computation for a concrete expression).  The type of `e` is taken to be the
+type of its reduct.  Not covered: calls under `R{}` / `I{}` / enumerated declarations / tuple patterns; that the
+normaliser always produces the normal form of a β-reduct is checked per expression, not proved in general. -/
+
+def Typed7 (env : Env) (e : Ast) (τ : ExprTy) : Prop :=
+  ∃ G es n K f0, GlobalsOK env G ∧ FragR env G 6 [] [] es n τ ∧ Beta env.funcs K [] e es ∧
+    normalizeTree env.funcs f0 e = some n
+
+/-- **progress_preservation_partial7**: expressions with calls: evaluating the inlined tree never faults, a value has
+the type of the expression, errors are documented ones. -/
+theorem progress_preservation_partial7 : progress_preservation_statement Typed7 := by
+  intro env e τ ⟨G, es, n, K, f0, hG, hf, hbeta, hn⟩ fuel
+  rcases evaluate_calls hG hf hbeta hn fuel with hg | ho | ⟨eid, pos, he, hd⟩
+  · cases τ with
+    | ty ty =>
+      obtain ⟨v, hr, hw, _, _⟩ := hg
+      rw [hr]
+      exact ⟨ty, rfl, (hasTy_iff v ty).mp hw.1⟩
+    | logic =>
+      obtain ⟨b, hr, _⟩ := hg
+      rw [hr]; rfl
+  · rw [ho]; trivial
+  · rw [he]; exact hd
+
+/-- **never_stuck_partial7**: the possible outcomes on stage 7 -/
+theorem never_stuck_partial7 (env : Env) (e : Ast) (τ : ExprTy) (h : Typed7 env e τ) (fuel : Nat) :
+    (∃ v, (evaluate fuel env e).1 = .ok v) ∨ (∃ b, (evaluate fuel env e).1 = .okBool b) ∨
+    (evaluate fuel env e).1 = .outOfFuel ∨ (∃ eid pos, (evaluate fuel env e).1 = .err eid pos ∧ Documented eid) := by
+  obtain ⟨G, es, n, K, f0, hG, hf, hbeta, hn⟩ := h
+  rcases evaluate_calls hG hf hbeta hn fuel with hg | ho | ⟨eid, pos, he, hd⟩
+  · cases τ with
+    | ty ty => obtain ⟨v, hr, _⟩ := hg; exact Or.inl ⟨v, hr⟩
+    | logic => obtain ⟨b, hr, _⟩ := hg; exact Or.inr (Or.inl ⟨b, hr⟩)
+  · exact Or.inr (Or.inr (Or.inl ho))
+  · exact Or.inr (Or.inr (Or.inr ⟨eid, pos, he, hd⟩))
+
+/-! non-vacuity: `D{x∈X1 | F1[{x}]={x}}` with `F1 :== [s∈ℬ(X1)] D{y∈X1 | y∈s}` has type `ℬ(X1)` and evaluates to `{1,2}` -/
+example : Typed7 Examples7.env7 Examples7.caller (.ty (.coll Examples.X)) :=
+  ⟨_, _, _, 2, 10, Examples7.globalsOK_7, Examples7.callerN_frag, Examples7.caller_beta, Examples7.caller_normalizes⟩
+example : (evaluate 20 Examples7.env7 Examples7.caller).1 = .ok (.s [.e 1, .e 2]) := by decide
 
 end CCVerif.Eval
